@@ -233,7 +233,7 @@ pub fn cases_c11(cfg: &Cfg) -> Vec<Case> {
             // a rotating sixth of the catalogue per (alias, type), always including the empty input
             let k = if cfg.scale == Scale::Tiny { 40 } else if cfg.tier == Tier::Quick { 6 } else { 2 };
             for (j, spec) in specs.into_iter().enumerate() {
-                if spec.n > 400_000 || (j != 0 && (j + ai + ti) % k != 0) {
+                if spec.n > 1_200_000 || (j != 0 && (j + ai + ti) % k != 0) {
                     continue;
                 }
                 let ty = format!("{}<{}>", alias, tname);
@@ -249,6 +249,19 @@ pub fn cases_c11(cfg: &Cfg) -> Vec<Case> {
             let ty = format!("{}<{}>", alias, tname);
             out.push(Case::new(ty.clone(), format!("{}|default", ty), J::obj().set("state", "Default::default()"), 50, move |rep: &mut Rep| {
                 with_tree!(alias, tname, run_ser_tree, rep, &spec, budget, true);
+            }));
+        }
+    }
+    if cfg.scale == Scale::Full {
+        // Huffman-shaped trees with long (25..27-bit) codewords on two branches
+        for alias in ["HWT", "HQWT512Pfs"] {
+            let spec = long_two_branch_spec(rng.u64());
+            let ty = format!("{}<u8>", alias);
+            let class = format!("{}|long two-branch codes", ty);
+            let desc = J::obj().set("spec", spec.to_json());
+            let w = spec.n as u64 * 3;
+            out.push(Case::new(ty, class, desc, w, move |rep: &mut Rep| {
+                with_tree!(alias, "u8", run_ser_tree, rep, &spec, budget, false);
             }));
         }
     }
